@@ -18,6 +18,7 @@ import IoosQc.Model.Creator
 import IoosQc.Model.CallRun
 import IoosQc.Model.System
 import IoosQc.Model.Np
+import IoosQc.Model.NpAgg
 
 open Lean IoosQc IoosQc.Wire
 
@@ -625,6 +626,16 @@ def handleNp (j : Json) : D Json := do
         let tr := Np.insertFalse (min (← a).length w) (Np.filledFalse (Np.ltS (Np.uf1 Np.Fl.abs (Np.maBin Np.Fl.sub mx mn)) (← r)))
         let hide := fun (c : Np.Cell) => if c.m then (⟨.nan, true⟩ : Np.Cell) else c
         pure (Json.arr #[cellsToJson (mn.map hide), cellsToJson (mx.map hide), Json.arr (tr.map toJson).toArray])
+    | "where_eq" => do
+        let v ← field j "vec" >>= asList asCell
+        let p ← field j "p" >>= asInt
+        match Flag.ofCode? p with
+        | some f => pure (Json.arr ((Np.whereEq v f).map toJson).toArray)
+        | none => throw "flag code"
+    | "empty_fill" => do
+        pure (match Np.maEmpty ((← field j "shapes" >>= asList asNat)[0]?) with
+          | .ok fl => flagsToJson (Np.fillWith fl .missing)
+          | .error e => Json.str e.name)
     | "great_circle" => do
         pure (cellsToJson (Np.greatCircle (← field j "hops" >>= asList asV) (← field j "n" >>= asNat)))
     | s => throw s!"unknown np op {s}")
